@@ -265,24 +265,25 @@ func (ck *checker) attrValues(corp *index.Corpus) {
 		at := hTime(h)
 		for _, sg := range ck.signerArgs() {
 			for attr, an := range attrNames {
-				want := c.allowed(hyp{}, sg.sel, attr, hLimit(h))
-				got := corp.AppendPermanodeAttrValues(nil, pn, an, at, sg.id)
+				raw := c.allowed(hyp{}, sg.sel, attr, hLimit(h))
+				want := normSet(raw)
+				got := noEmpty(corp.AppendPermanodeAttrValues(nil, pn, an, at, sg.id))
 				gk := strings.Join(got, sep)
 				fmt.Fprintf(&ck.obs, "V%d%s%d=%q;", h, selName(sg.sel), attr, got)
 				if !want[gk] {
-					cl := ck.classify("attr", func(hy hyp) bool { return c.allowed(hy, sg.sel, attr, hLimit(h))[gk] })
+					cl := ck.classify("attr", func(hy hyp) bool { return normSet(c.allowed(hy, sg.sel, attr, hLimit(h)))[gk] })
 					ck.add("AppendPermanodeAttrValues", cl, "AppendPermanodeAttrValues(pn, %q, T=h%d, signer=%s) = %q; reference allows %s", an, h, selName(sg.sel), got, showSet(want))
 				}
 				g1 := corp.PermanodeAttrValue(pn, an, at, sg.id)
 				fmt.Fprintf(&ck.obs, "%q;", g1)
-				if !firsts(want)[g1] {
-					cl := ck.classify("attr", func(hy hyp) bool { return firsts(c.allowed(hy, sg.sel, attr, hLimit(h)))[g1] })
+				if !firstsEither(raw)[g1] {
+					cl := ck.classify("attr", func(hy hyp) bool { return firstsEither(c.allowed(hy, sg.sel, attr, hLimit(h)))[g1] })
 					ck.add("PermanodeAttrValue", cl, "PermanodeAttrValue(pn, %q, T=h%d, signer=%s) = %q; reference allows first of %s", an, h, selName(sg.sel), g1, showSet(want))
 				}
 				if sg.sel != sigAll {
 					continue
 				}
-				for _, val := range valNames {
+				for _, val := range valNames[:3] {
 					g := corp.PermanodeHasAttrValue(pn, at, an, val)
 					fmt.Fprintf(&ck.obs, "%v;", g)
 					if !has(want, val)[g] {
